@@ -1,20 +1,24 @@
+import Teleport.Drv.C02
 import Teleport.Drv.C03
 import Teleport.Drv.C05
 import Teleport.Drv.C07
+import Teleport.Drv.C08
 import Teleport.Drv.C09
 import Teleport.Drv.C10
 import Teleport.Drv.C11
 import Teleport.Drv.C12
 import Teleport.Drv.C13
+import Teleport.Drv.C14
 import Teleport.Drv.C16
 import Teleport.Drv.C17
 import Teleport.Drv.C18
 import Teleport.Drv.C19
+import Teleport.Drv.C20
 open Teleport.Drv
 
 /-- every case kind of the line protocol with its model handler (one list per property module). -/
 def allHandlers : List (String × (Fields → String)) :=
-  handlersC03 ++ handlersC05 ++ handlersC07 ++ handlersC09 ++ handlersC10 ++ handlersC11 ++ handlersC12 ++ handlersC13 ++ handlersC16 ++ handlersC17 ++ handlersC18 ++ handlersC19
+  handlersC02 ++ handlersC03 ++ handlersC05 ++ handlersC07 ++ handlersC08 ++ handlersC09 ++ handlersC10 ++ handlersC11 ++ handlersC12 ++ handlersC13 ++ handlersC14 ++ handlersC16 ++ handlersC17 ++ handlersC18 ++ handlersC19 ++ handlersC20
 
 def handle (line : String) : String :=
   match (line.trimAscii.toString.splitOn " ").filter (· ≠ "") with
